@@ -58,6 +58,17 @@ def generate(tier, rng):
                     [dict(dims=["t"], values=[Fraction(5, 2)] * n), dict(dims=["t"], values=[near if i % 2 else Fraction(5, 2) for i in range(n)]), Fraction(5, 2)]][k % 3]
             cases.append(dict(stream="history", gname="unit", grid=grid, cls=cls, solver=solver, seq="".join(s), prms=prms,
                               drvs=[[rng.randint(1, 9) for _ in range(n)] for _ in range(3)], at="middle", n_pts=1, in_system=False))
+    # whole-number parameters held in an integer array first (years read from a file), parameters with a fractional part afterwards
+    for cls, solver in (("idsm", None), ("sdsm", "manual"), ("sdsm", "lapack")):
+        for s in [q for q in seqs if "P" in q][:: (6 if tier == "quick" else 1)]:
+            k += 1
+            grid = c03.GRIDS["unit"]
+            n = len(grid)
+            prms = [dict(dims=["t"], values=[[3, 2, 4][(k + i) % 3] for i in range(n)], dtype="int"),
+                    [Fraction(5, 2), Fraction(7, 4), Fraction(13, 4)][k % 3],
+                    dict(dims=["t"], values=[Fraction([5, 3, 9][(k + i) % 3], 2) for i in range(n)])]
+            cases.append(dict(stream="history", gname="unit", grid=grid, cls=cls, solver=solver, seq="".join(s), prms=prms,
+                              drvs=[[rng.randint(1, 9) for _ in range(n)] for _ in range(3)], at=["start", "end", "middle"][k % 3], n_pts=1, in_system=(k % 2 == 0)))
     # drivers that differ by very little (a finite-difference step of 2^-20) or are tiny throughout (a unit of 2^-40): the
     # driver held at the moment of compute() counts, however close to the previous one it is
     for cls, solver in (("idsm", None), ("sdsm", "manual"), ("sdsm", "lapack")):
